@@ -297,7 +297,7 @@ func c17steps(c *an.Ctx, f *an.Fn) {
 		c.Anchor("C17.steps", "case NodeField in isSet")
 	} else {
 		ok, why := false, "no loop over the path segments"
-		ast.Inspect(cc, func(n ast.Node) bool {
+		armInspect(f, cc, func(n ast.Node) bool {
 			fs, isFor := n.(*ast.ForStmt)
 			if !isFor {
 				return true
@@ -339,7 +339,7 @@ func c17steps(c *an.Ctx, f *an.Fn) {
 		c.Anchor("C17.steps", "case NodeIndexExpr in isSet")
 	} else {
 		var resolve *ast.CallExpr
-		ast.Inspect(cc, func(n ast.Node) bool {
+		armInspect(f, cc, func(n ast.Node) bool {
 			if call, ok := n.(*ast.CallExpr); ok && an.CalleeName(info, call) == "jet.resolveIndex" {
 				resolve = call
 			}
